@@ -8,6 +8,13 @@ import (
 // Epoch is the wall clock value of virtual time zero.
 var Epoch = rt.Unix(1700000000, 0).UTC()
 
+// DefaultEpoch is the value Epoch is reset to before every execution (kit.ResetGlobals).
+var DefaultEpoch = Epoch
+
+// EpochBeforeIDWrap is a wall clock value whose UnixNano, truncated to 32 bits, is 0xfffffffd: the
+// request / survey id counters of REQ and SURVEYOR (seeded from the clock) wrap on the third id.
+var EpochBeforeIDWrap = rt.Unix(1700000000, 3386245117).UTC()
+
 // Timer replaces time.Timer.
 type Timer struct {
 	C      *Chan[rt.Time]
